@@ -77,6 +77,14 @@ func (me *Peer) syncToNeighborSince(graph map[crypto.Hash]*SyncPoint, p *Peer, o
 		}
 		offset = s.TopologicalOrder
 	}
+	if simEnabled {
+		if _, ok := simNow(); ok {
+			if len(snapshots) < limit {
+				return offset, fmt.Errorf("EOF")
+			}
+			return offset, nil
+		}
+	}
 	time.Sleep(100 * time.Millisecond)
 	if len(snapshots) < limit {
 		return offset, fmt.Errorf("EOF")
